@@ -72,12 +72,42 @@ def corpus_sources(ctx: Ctx) -> list[tuple[str, str]]:
     from harness.adapters import graphs as ad  # noqa: PLC0415
 
     rng = ctx.rng("corpus")
-    out = [("c06hand", ad.HAND)]
+    out = [("c06hand", ad.HAND), ("c06dead", ad.HAND_DEAD)]
     n = 12 if ctx.quick else 120
     for i in range(n):
         pg = ad.ProgGen(rng, depth=rng.choice([2, 2, 3]))
         out.append((f"c06gen_{i}", pg.module(rng.randint(3, 6))))
     return out
+
+
+def dead_cycle_class(code) -> str:
+    """Input class for signatures: does the bytecode contain a cycle of blocks that no path from
+    the first block reaches (CPython keeps e.g. the handler of `try: pass` and what follows it)?"""
+    import networkx as nx  # noqa: PLC0415
+    from bytecode import Bytecode, ControlFlowGraph  # noqa: PLC0415
+
+    import pynguin.instrumentation.controlflow as cf  # noqa: PLC0415
+    from pynguin.instrumentation import version  # noqa: PLC0415
+
+    try:
+        blocks = ControlFlowGraph.from_bytecode(version.add_for_loop_no_yield_nodes(Bytecode.from_code(code)))
+        cf.CFG._split_try_begin_blocks(blocks)  # noqa: SLF001
+        edges, nodes = cf.CFG._create_nodes_and_edges(blocks)  # noqa: SLF001
+        g = nx.DiGraph()
+        g.add_nodes_from(nodes)
+        for u, succ in edges.items():
+            g.add_edges_from((u, v) for v, _ in succ)
+        live = nx.descendants(g, 0) | {0}
+        dead = g.subgraph(set(g.nodes) - live)
+        return "dead-code-cycle" if any(True for _ in nx.simple_cycles(dead)) else "other"
+    except Exception:  # noqa: BLE001
+        return "unclassified"
+
+
+def code_source(path: Path, code) -> str:
+    lines = path.read_text().splitlines()
+    last = max((ln for _, _, ln in code.co_lines() if ln), default=code.co_firstlineno)
+    return "\n".join(lines[code.co_firstlineno - 1:last])[:3000]
 
 
 def p1_module_events(ctx: Ctx, modname: str, srcdir: Path, src_tag: str) -> tuple[list[dict], int, str]:
@@ -108,8 +138,9 @@ def p1_module_events(ctx: Ctx, modname: str, srcdir: Path, src_tag: str) -> tupl
             cfg = cf.CFG.from_bytecode(version.add_for_loop_no_yield_nodes(Bytecode.from_code(c)))
         except Exception as ex:  # noqa: BLE001
             evs.append({"kind": "cfg", "src": src_tag, "name": name, "nodes": [], "edges": [],
-                        "entry": 1, "exit": 2, "raised": f"CFG-{type(ex).__name__}", "cdg": [],
-                        "cdgnodes": [], "root": [], "deps": []})
+                        "entry": 1, "exit": 2, "cdg": [], "cdgnodes": [], "root": [], "deps": [],
+                        "raised": f"CFG-{type(ex).__name__}-{dead_cycle_class(c)}",
+                        "source": code_source(srcdir / f"{modname}.py", c)})
             continue
         g, ids = ad.export_cfg(cfg)
         if len(g["nodes"]) > ad.NODE_CAP:
@@ -201,7 +232,7 @@ def run(ctx: Ctx) -> None:
                 sig += "/pair-absent" if "CDGPairsComplete" in names else "/pair-present"
             ctx.bad(clause, sig,
                     f"{ev['name']}: {len(ev['nodes'])} nodes, edges {ev['edges']} -> real CDG {ev['cdg']} "
-                    f"root {ev['root']} raised {ev['raised']!r}",
+                    f"root {ev['root']} raised {ev['raised']!r}" + (f" source:\n{ev['source']}" if ev.get("source") else ""),
                     trace={"ev": [ev]}, behaviour=ev)
     for t in (traces[0], traces[-1]):
         ctx.sample({k: t["ev"][0][k] for k in ("src", "name", "nodes", "edges", "cdg", "root")})
